@@ -46,6 +46,7 @@ def ev_delay(ev):
 class InterpProp(Prop):
     n_ops = 30
     with_contracts = 0.0
+    edited = 0.1            # share of cases whose statechart was used, edited through the API, and used again
     ignore_contract = False
     trusted = ['code fragments: Python subset interpreted by the model (harness/encode.py, Model/Py.lean)']
 
@@ -60,15 +61,33 @@ class InterpProp(Prop):
         g = gen.ChartGen(rnd, kn)
         sc = g.build()
         self.post_build(rnd, g, sc)
+        history = None
+        if self.edited and rnd.random() < self.edited:
+            # a statechart with a past: used, restructured through the editing API, used again
+            base = ChartEnc(sc).json
+            gen.warm(sc)
+            edits = gen.plan_edits(rnd, sc, kn.wf)
+            if edits is None:
+                sc = chart_from_json(base)
+            else:
+                history = {'base': base, 'edits': edits}
         enc = ChartEnc(sc)
         ops = [['create', 0, self.ignore_contract, [], 0]] + self.make_ops(rnd, kn, sc)
         payload = {'kind': 'interp', 'charts': [enc.json], 'ops': ops}
+        if history:
+            payload['history'] = history
         return Case(payload, {'charts': [sc]}, model_ok=enc.supported)
 
     def post_build(self, rnd, g, sc):
         pass
 
     def rebuild(self, payload):
+        if payload.get('history'):
+            sc = chart_from_json(payload['history']['base'])
+            gen.warm(sc)
+            gen.apply_edits(sc, payload['history']['edits'])
+            payload['charts'] = [ChartEnc(sc).json]
+            return {'charts': [sc]}
         charts = [chart_from_json(j) for j in payload['charts']]
         # both sides must see the same chart again: re-encode what was rebuilt
         payload['charts'] = [ChartEnc(sc).json for sc in charts]
@@ -115,6 +134,8 @@ class InterpProp(Prop):
             if not self.cmp_callbacks:
                 w.pop('callbacks', None)
             r = ob.get('r')
+            if isinstance(r, dict):
+                r.pop('oldchk', None)           # implementation-side channel for the `__old__` oracle
             if isinstance(r, dict) and 'outcome' in r and not self.cmp_outcome:
                 ob['r'] = None
                 r = None
@@ -224,6 +245,12 @@ class InterpProp(Prop):
             q = copy.deepcopy(p)
             del q['ops'][i]
             yield q
+        if p.get('history'):
+            # the chart is what the editing history produced: try without the history, else keep it whole
+            q = copy.deepcopy(p)
+            del q['history']
+            yield q
+            return
         # drop transitions
         ch = p['charts'][0]
         for i in range(len(ch['transitions'])):
